@@ -793,6 +793,10 @@ Next ==
   \/ Reopen
 
 Spec == Init /\ [][Next]_vars
+\* the same behaviours cut at MaxOps calls inside the next-state relation (the state constraint alone still makes TLC
+\* expand every state of the last level, the largest by far, only to discard all successors)
+NextG == Len(ops) < MaxOps + Len(AllSeedOps) /\ Next
+SpecG == Init /\ [][NextG]_vars
 
 (***************************************************************************)
 (* Properties.                                                             *)
